@@ -583,6 +583,142 @@ impl Ctx {
         }
     }
 
+    /// Runs a libFuzzer target (built by `fuzz/build.sh`, semantic oracle inside the target) as a
+    /// sub-check: first every committed regression input under `replays/<property>/<target>/`, then a
+    /// seeded campaign of `runs` executions per process on `procs` processes from the committed seed
+    /// corpus. A crash is a violation whose replay file is the libFuzzer artifact.
+    pub fn run_fuzz(&self, target: &str, runs: u64, procs: u32, max_len: u32) {
+        let sub = format!("fuzz-{target}");
+        if self.is_replay() || self.violated() {
+            return;
+        }
+        let t0 = Instant::now();
+        let bin = self.root.join("fuzz/target/x86_64-unknown-linux-gnu/release").join(target);
+        if !bin.exists() {
+            self.health_failures.lock().unwrap().push(format!("fuzz target binary {} is missing (fuzz/build.sh not run?)", bin.display()));
+            return;
+        }
+        // 1. regression inputs
+        let reg_dir = self.root.join("replays").join(self.property).join(target);
+        let mut regressions = 0u64;
+        if let Ok(rd) = std::fs::read_dir(&reg_dir) {
+            let mut files: Vec<_> = rd.flatten().map(|e| e.path()).collect();
+            files.sort();
+            for f in files {
+                regressions += 1;
+                let out = std::process::Command::new(&bin).arg(&f).env("VERIF_FUZZ_STRICT", "1").output();
+                match out {
+                    Ok(o) if o.status.success() => {}
+                    Ok(o) => {
+                        let err = String::from_utf8_lossy(&o.stderr);
+                        let msg = err.lines().filter(|l| l.contains("panicked") || l.contains("assertion") || l.contains("left:") || l.contains("right:")).take(4).collect::<Vec<_>>().join(" | ");
+                        self.external_violation(&sub, &f, &format!("regression input crashes the target: {msg}"));
+                        return;
+                    }
+                    Err(e) => {
+                        self.health_failures.lock().unwrap().push(format!("cannot run {}: {e}", bin.display()));
+                        return;
+                    }
+                }
+            }
+        }
+        // 2. campaign
+        let seeds = self.root.join("fuzz/seeds").join(target);
+        let vdir = self.root.join("work/violations");
+        let _ = std::fs::create_dir_all(&vdir);
+        let mut children = vec![];
+        for p in 0..procs.max(1) {
+            let corpus = self.root.join("work/fuzz-corpus").join(format!("{target}-{}-{p}", self.seed));
+            let _ = std::fs::remove_dir_all(&corpus);
+            let _ = std::fs::create_dir_all(&corpus);
+            let fseed = (hash64(format!("{}|{}|{}|{p}", self.seed, self.property, target).as_bytes()) % 0x7fff_fffe) + 1;
+            let mut cmd = std::process::Command::new(&bin);
+            cmd.arg(format!("-runs={runs}"))
+                .arg(format!("-seed={fseed}"))
+                .arg("-len_control=0")
+                .arg(format!("-max_len={max_len}"))
+                .arg("-print_final_stats=1")
+                .arg("-timeout=60")
+                .arg("-rss_limit_mb=4096")
+                .arg(format!("-artifact_prefix={}/{}-{}-", vdir.display(), self.property, target))
+                .arg(&corpus);
+            if seeds.exists() {
+                cmd.arg(&seeds);
+            }
+            cmd.stdout(std::process::Stdio::null()).stderr(std::process::Stdio::piped());
+            match cmd.spawn() {
+                Ok(c) => children.push((c, corpus)),
+                Err(e) => {
+                    self.health_failures.lock().unwrap().push(format!("cannot spawn {}: {e}", bin.display()));
+                    return;
+                }
+            }
+        }
+        let mut execs = 0u64;
+        let mut new_units = 0u64;
+        let mut cov = 0u64;
+        let mut samples = vec![];
+        for (c, corpus) in children {
+            let out = match c.wait_with_output() {
+                Ok(o) => o,
+                Err(e) => {
+                    self.health_failures.lock().unwrap().push(format!("fuzz process failed: {e}"));
+                    return;
+                }
+            };
+            let err = String::from_utf8_lossy(&out.stderr);
+            for l in err.lines() {
+                if let Some(v) = l.strip_prefix("stat::number_of_executed_units:") {
+                    execs += v.trim().parse::<u64>().unwrap_or(0);
+                } else if let Some(v) = l.strip_prefix("stat::new_units_added:") {
+                    new_units += v.trim().parse::<u64>().unwrap_or(0);
+                } else if l.contains(" cov: ") {
+                    if let Some(x) = l.split(" cov: ").nth(1).and_then(|r| r.split_whitespace().next()).and_then(|n| n.parse::<u64>().ok()) {
+                        cov = cov.max(x);
+                    }
+                }
+            }
+            if !out.status.success() {
+                // find the artifact path libFuzzer reports
+                let art = err
+                    .lines()
+                    .filter_map(|l| l.split("Test unit written to ").nth(1))
+                    .map(|p| PathBuf::from(p.trim()))
+                    .next();
+                let msg = err.lines().filter(|l| l.contains("panicked") || l.contains("assertion") || l.contains("left:") || l.contains("right:") || l.contains("ERROR: libFuzzer")).take(5).collect::<Vec<_>>().join(" | ");
+                match art {
+                    Some(a) if msg.contains("timeout") || msg.contains("out-of-memory") => {
+                        self.health_failures.lock().unwrap().push(format!("fuzz target {target}: {msg} (input {})", a.display()));
+                    }
+                    Some(a) => self.external_violation(&sub, &a, &msg),
+                    None => self.health_failures.lock().unwrap().push(format!("fuzz target {target} ended abnormally without an artifact: {msg}")),
+                }
+            }
+            if samples.len() < 2 {
+                if let Ok(rd) = std::fs::read_dir(&corpus) {
+                    for e in rd.flatten().take(2 - samples.len()) {
+                        if let Ok(b) = std::fs::read(e.path()) {
+                            samples.push(format!("corpus input ({} bytes): {}", b.len(), hex::encode(&b[..b.len().min(96)])));
+                        }
+                    }
+                }
+            }
+            let _ = std::fs::remove_dir_all(&corpus);
+        }
+        let mut counters = BTreeMap::new();
+        counters.insert("executions".to_string(), execs);
+        counters.insert("coverage-increasing-inputs".to_string(), new_units);
+        counters.insert("edges-covered".to_string(), cov);
+        counters.insert("regression-inputs-replayed".to_string(), regressions);
+        counters.insert("processes".to_string(), procs as u64);
+        println!(
+            "  [{}] {sub}: {execs} executions on {procs} process(es), {new_units} coverage-increasing inputs, {cov} edges, {regressions} regression inputs in {:.1}s",
+            self.property,
+            t0.elapsed().as_secs_f64()
+        );
+        self.external_sub(&sub, "libFuzzer campaign (coverage-guided, semantic oracle inside the target)", execs + regressions, new_units, samples, counters, t0.elapsed().as_secs_f64());
+    }
+
     pub fn violated(&self) -> bool {
         !self.violations.lock().unwrap().is_empty()
     }
